@@ -147,7 +147,7 @@ def run_replay(ctx, exe, args, total, log_path, timeout=3000):
     """Like vlib.run_batches, for a build in which ASan reports and UBSan vptr reports are recoverable: every report is attributed to
     the unit announced by the driver's `@@X n` stderr marker; a fatal exit is recorded for the last announced unit and the run resumes."""
     import re
-    k, sums, deaths = 0, [], []
+    k, sums, deaths, nfatal = 0, [], [], 0
     open(log_path, "w").close()
     env = {"ASAN_OPTIONS": vlib.SAN_ENV["ASAN_OPTIONS"] + ":halt_on_error=0:suppress_equal_pcs=0",
            "UBSAN_OPTIONS": "print_stacktrace=1:halt_on_error=0:exitcode=72"}
@@ -192,8 +192,9 @@ def run_replay(ctx, exe, args, total, log_path, timeout=3000):
         x = units[-1][0] if units else k
         with open(log_path, "a") as f:
             f.write('\n{"e":"Aborted","x":%d}\n' % x)
-        if len(deaths) > 2000:
-            ctx.rep.note("stopped after %d sanitizer reports" % len(deaths))
+        nfatal += 1
+        if nfatal >= 40 or len(deaths) > 2000:
+            ctx.rep.note("replay stopped at behaviour %d of %d after %d fatal exits / %d sanitizer reports" % (x, total, nfatal, len(deaths)))
             break
         k = x + 1
     return sums, deaths
